@@ -562,7 +562,8 @@ def _find_conflict(
             nodes = sorted(
                 [node_1, node_2]
                 + list(flatten(nodes for _, _, nodes in subconflicts)),
-                key=lambda n: n.loc,
+                # Documents parsed without locations have no order to keep.
+                key=lambda n: n.loc or (0, 0),
             )
             return response_name, reason, nodes
 
